@@ -10,6 +10,7 @@ import time
 
 VERIF = os.path.dirname(os.path.dirname(os.path.dirname(os.path.abspath(__file__))))
 WORK = os.path.join(VERIF, ".work")
+POOL = int(os.environ.get("VERIF_TARGET_POOL", "4"))
 DRIVER = os.path.join(VERIF, "engine", "bluefacts", "target", "release", "bluefacts")
 
 # crates the quick tier extracts (the anchored crates of the 20 properties and what they build on)
@@ -68,7 +69,7 @@ def extract(repo="/repo", scope="quick", target_dir=None, verbose=True):
     facts_root = os.path.join(WORK, "facts")
     os.makedirs(facts_root, exist_ok=True)
     out = os.path.join(facts_root, key)
-    lock_path = os.path.join(WORK, "extract.lock")
+    lock_path = os.path.join(facts_root, key + ".lock")
     with open(lock_path, "w") as lock:
         fcntl.flock(lock, fcntl.LOCK_EX)
         done = os.path.join(out, "DONE")
@@ -88,7 +89,24 @@ def extract(repo="/repo", scope="quick", target_dir=None, verbose=True):
         if os.path.exists(out):
             shutil.rmtree(out)
         os.makedirs(out)
-        tdir = target_dir or os.path.join(WORK, "target")
+        # pick a free target directory from a small pool (each keeps compiled registry dependencies)
+        tlock = None
+        tdir = target_dir
+        if tdir is None:
+            pool = [os.path.join(WORK, "target")] + [os.path.join(WORK, "target-%d" % i) for i in range(1, POOL)]
+            for cand in pool:
+                os.makedirs(cand, exist_ok=True)
+                fh = open(cand + ".lock", "w")
+                try:
+                    fcntl.flock(fh, fcntl.LOCK_EX | fcntl.LOCK_NB)
+                    tlock, tdir = fh, cand
+                    break
+                except OSError:
+                    fh.close()
+            if tdir is None:
+                tdir = pool[0]
+                tlock = open(tdir + ".lock", "w")
+                fcntl.flock(tlock, fcntl.LOCK_EX)
         os.makedirs(tdir, exist_ok=True)
         # cargo's freshness cache would skip the wrapper for up-to-date members: forget them
         fp = os.path.join(tdir, "debug", ".fingerprint")
@@ -114,6 +132,8 @@ def extract(repo="/repo", scope="quick", target_dir=None, verbose=True):
         else:
             cmd += ["--workspace"]
         r = subprocess.run(cmd, cwd=repo, env=env, stdout=subprocess.PIPE, stderr=subprocess.STDOUT, text=True)
+        if tlock is not None:
+            tlock.close()
         if r.returncode != 0:
             sys.stderr.write(r.stdout[-6000:])
             shutil.rmtree(out, ignore_errors=True)
@@ -126,9 +146,15 @@ def extract(repo="/repo", scope="quick", target_dir=None, verbose=True):
         # keep the cache small: drop older fact sets
         keep = {key, "%s-full" % th, "%s-quick" % th}
         for d in os.listdir(facts_root):
+            if d.endswith(".lock"):
+                continue
             if d not in keep:
                 age = time.time() - os.path.getmtime(os.path.join(facts_root, d))
-                if age > 1800 or len(os.listdir(facts_root)) > 6:
+                if age > 1800:
                     shutil.rmtree(os.path.join(facts_root, d), ignore_errors=True)
+                    try:
+                        os.unlink(os.path.join(facts_root, d + ".lock"))
+                    except OSError:
+                        pass
         info["wall_s"] = round(time.time() - t0, 2)
         return out, info
